@@ -281,8 +281,8 @@ impl Check for C13 {
     }
     fn runs(&self, tier: Tier) -> u64 {
         match tier {
-            Tier::Quick => 60_000,
-            Tier::Thorough => 3_000_000,
+            Tier::Quick => 1_500_000,
+            Tier::Thorough => 45_000_000,
         }
     }
 
